@@ -247,15 +247,32 @@ func (w *world) fetchOp(vs []*view, cps []int, complete bool) {
 			}
 			w.t.Line("ev %d %d %d %d %s => -", e.p, e.k, so, e.m.prev, ints(e.m.fids))
 		}
+		nreq := len(reqs)
 		go func() {
 			defer close(dDone)
-			for _, e := range evs {
+			var lastOK *ev
+			for i := range evs {
+				e := evs[i]
 				cp := *e.m.w
 				cp.FilterHashes = append([]*chainhash.Hash(nil), e.m.w.FilterHashes...)
-				e.req.HandleResp(e.req.Req, &cp, addr(e.p))
+				if e.req.HandleResp(e.req.Req, &cp, addr(e.p)).Finished {
+					lastOK = &evs[i]
+				}
 			}
-			// let the loop drain what was delivered, then end the batch
-			time.Sleep(40 * time.Millisecond)
+			// End the batch only when the loop has taken everything that was
+			// delivered.  The header channel is FIFO with room for nreq messages
+			// and the loop takes the next one only after it is done with the
+			// previous one, so once nreq+1 further messages have gone in, every
+			// real one has been dealt with.  The fillers repeat a response that
+			// was already accepted, which leaves the loop's state as it is
+			// (already written: skipped; stashed: stashed again).
+			if lastOK != nil {
+				for i := 0; i < nreq+1; i++ {
+					cp := *lastOK.m.w
+					cp.FilterHashes = append([]*chainhash.Hash(nil), lastOK.m.w.FilterHashes...)
+					lastOK.req.HandleResp(lastOK.req.Req, &cp, addr(lastOK.p))
+				}
+			}
 			errChan <- errors.New("batch over")
 		}()
 		return errChan
